@@ -666,6 +666,12 @@ func http2Mutate(r Rand, msg []byte) []byte {
 		if len(offs) > 0 {
 			o := offs[choose(r, len(offs), "h2.frame")]
 			out = mutateLenField(r, out, []lenField{{off: o, width: 3}}, "h2.len")
+			// wave 12: when the client's SETTINGS frame (the first frame) has an entry, it now announces
+			// SETTINGS_MAX_FRAME_SIZE = 2^24-1 in front of the frame whose length was changed: a parser that
+			// lets the peer raise its own read limit allocates what that frame header claims
+			if so := offs[0]; so != o && so+9+6 <= len(out) && out[so+3] == byte(http2.FrameSettings) && (int(out[so])<<16|int(out[so+1])<<8|int(out[so+2])) >= 6 {
+				copy(out[so+9:], []byte{0, 5, 0x00, 0xff, 0xff, 0xff})
+			}
 		}
 	case 3: // frame type boundary values
 		if len(offs) > 0 {
